@@ -5,9 +5,10 @@ import PokerVerif.Lemmas.TBAgree
 `Inv s := Booked s ∧ Agree s`: the table's seat map and player list are tight and of the configured length (`Booked`), the
 seat manager has the configured seat count, holds exactly the listed player's id on every seat of the table, and no id is
 listed twice (`Agree`).  `step_inv`: every event of `TB.Event` keeps it, provided the event is *legal* (`EventLegal`): the
-recorded random seats are a draw the seat manager could have made (`BatchLegal`, the only recorded randomness) and the call
-did not end in a Go panic (`Res.panic`: index out of range in the code — crashes are reported by the harness as
-`CRASH.*`, they are not modelled further).  `run_inv`: induction over the history.
+recorded random seats are a draw the seat manager could have made (`BatchLegal`, the only recorded randomness) and a
+*departure* did not end in a Go panic (`Res.panic`: `calcLeavePlayers` indexing the player list with a hand-list entry
+that is out of range — crashes are reported by the harness as `CRASH.*`).  Arrivals need no such guard: on a table whose
+books agree `batchAddPlayers` cannot panic (`batchAdd_no_panic`).  `run_inv`: induction over the history.
 -/
 namespace TB
 
@@ -15,12 +16,11 @@ def Inv (s : State) : Prop := Booked s ∧ Agree s
 
 /-- what the model needs of a recorded event to speak for the code -/
 def EventLegal (s : State) : Event → Prop
-  | .reserve j ch => findPlayerIdx s j.id = none → BatchLegal s [j] ch ∧ (batchAdd s [j] ch).2 ≠ .panic
+  | .reserve j ch => findPlayerIdx s j.id = none → BatchLegal s [j] ch
   | .leave ids => (batchRemove s ids).2 ≠ .panic
   | .update js lv ch =>
     (lv.isEmpty = false → (batchRemove s lv).2 ≠ .panic) ∧
-    BatchLegal (if lv.isEmpty then s else (batchRemove s lv).1) js ch ∧
-    (batchAdd (if lv.isEmpty then s else (batchRemove s lv).1) js ch).2 ≠ .panic
+    BatchLegal (if lv.isEmpty then s else (batchRemove s lv).1) js ch
   | _ => True
 
 instance (s : State) (e : Event) : Decidable (EventLegal s e) := by
@@ -32,10 +32,10 @@ def Legal : State → List Event → Prop
 
 theorem eventArrivalOK_of_inv (s : State) (e : Event) (h : Inv s) (hl : EventLegal s e) : EventArrivalOK s e := by
   cases e with
-  | reserve j ch => intro hf; exact arrivalOK_of_agree s [j] ch h.1 h.2 (hl hf).1
+  | reserve j ch => intro hf; exact arrivalOK_of_agree s [j] ch h.1 h.2 (hl hf)
   | update js lv ch =>
     show ArrivalOK (if lv.isEmpty then s else (batchRemove s lv).1) js ch
-    obtain ⟨hp, hb, _⟩ := hl
+    obtain ⟨hp, hb⟩ := hl
     by_cases he : lv.isEmpty = true
     · simp only [he, if_true] at hb ⊢
       exact arrivalOK_of_agree s js ch h.1 h.2 hb
@@ -52,7 +52,8 @@ theorem step_agree (s : State) (e : Event) (h : Inv s) (hl : EventLegal s e) : A
     cases hf : findPlayerIdx s j.id with
     | some i => exact Agree.of_quiet (q_reserve_known s j ch i hf) (seq_reserve_known s j ch i hf) ha
     | none =>
-      obtain ⟨hbl, hnp⟩ := hl hf
+      have hbl := hl hf
+      have hnp := batchAdd_no_panic s [j] ch hb ha hbl
       unfold reserve
       rw [hf]
       simp only
@@ -64,22 +65,22 @@ theorem step_agree (s : State) (e : Event) (h : Inv s) (hl : EventLegal s e) : A
   | leave ids => exact batchRemove_agree s ids hb ha hl
   | update js lv ch =>
     show Agree (update s js lv ch).1
-    obtain ⟨hp, hbl, hnp⟩ := hl
+    obtain ⟨hp, hbl⟩ := hl
     unfold update
     simp only
     by_cases he : lv.isEmpty = true
-    · simp only [he, if_true] at hbl hnp ⊢
+    · simp only [he, if_true] at hbl ⊢
       split
       · exact ha
-      · exact batchAdd_agree s js ch hb ha hbl hnp
-    · simp only [he, Bool.false_eq_true, if_false] at hbl hnp ⊢
+      · exact batchAdd_agree s js ch hb ha hbl (batchAdd_no_panic s js ch hb ha hbl)
+    · simp only [he, Bool.false_eq_true, if_false] at hbl ⊢
       have hp' := hp (by simpa using he)
       have hb1 := batchRemove_booked s lv hb
       have ha1 := batchRemove_agree s lv hb ha hp'
       split
       · split
         · exact ha1
-        · exact batchAdd_agree _ js ch hb1 ha1 hbl hnp
+        · exact batchAdd_agree _ js ch hb1 ha1 hbl (batchAdd_no_panic _ js ch hb1 ha1 hbl)
       · exact ha1
   | blind b => exact ⟨ha.maxSeat, ha.seats, ha.ids⟩
   | pause => exact ⟨ha.maxSeat, ha.seats, ha.ids⟩
